@@ -51,6 +51,7 @@ package p2p
 //@   ensures  [all-bytes-accounted] err == nil ==> n == len(data)
 //@   ensures  [partial-write-reports-sent-prefix] 0 <= n && n <= len(data)
 //@   loop 0 invariant 0 <= n && n + len(data) == old(len(data))
+//@   loop 0 invariant sc.sendNonce != nil && sc.shrSecret != nil && sc.conn != nil
 
 //@ ghost gChallengeOK Bool
 //@ ghost gVerifiedKey Iface
